@@ -144,14 +144,27 @@ func (g *genState) next() string {
 				}
 			case 1: // duplicate of something already scheduled / earlier
 				bad = r.Intn(hi[0] + 1)
-			case 2, 3, 4: // an extra (sibling, wrong parent, nil number)
+			case 2, 3, 4: // an extra (sibling, wrong parent, nil number), put where its number fits if possible
 				bad = u.n + r.Intn(len(u.H)-u.n)
+				var fit []int
+				for k, b := range u.extraBase {
+					if b >= hi[0] && b <= hi[len(hi)-1] {
+						fit = append(fit, k)
+					}
+				}
+				if len(fit) > 0 && r.Chance(85) {
+					k := fit[r.Intn(len(fit))]
+					bad, at = u.n+k, u.extraBase[k]-hi[0]
+				}
 			}
 			hi = append(hi[:at], append([]int{bad}, hi[at:]...)...)
 			e.dist["schedule-malformed-"+u.H[bad].tag]++
 		}
 		before := len(e.accepted)
 		op := fmt.Sprintf("S %d %s", from, strings.Join(strs(hi), " "))
+		if e.p.disciplined {
+			op = fmt.Sprintf("S * %s", strings.Join(strs(hi), " "))
+		}
 		g.afterSchedule = func() {
 			// advance along the honest chain by what was really accepted
 			for _, h := range e.accepted[before:] {
@@ -347,7 +360,7 @@ func run(c *vh.Ctx) error {
 				for i := 0; i < 64 && g.pos+i < u.n; i++ {
 					hi = append(hi, g.pos+i)
 				}
-				op := fmt.Sprintf("S %d %s", p.origin+uint64(len(e.accepted)), strings.Join(strs(hi), " "))
+				op := fmt.Sprintf("S * %s", strings.Join(strs(hi), " "))
 				g.ops = append(g.ops, op)
 				before := len(e.accepted)
 				fl = e.do(op)
